@@ -1510,6 +1510,12 @@ class Evaluator:
                 return self.hooks[f.name](self, args, kwargs)
             return self.construct(f.ci, args, kwargs, fr.depth)
         if isinstance(f, ExtRef):
+            if f.name.split('.')[-1] in ('Quantity', 'Angle') and node is not None and getattr(node, 'args', None):
+                a0 = node.args[0]
+                if isinstance(a0, ast.Attribute) and isinstance(a0.value, ast.Name) and a0.value.id in ('u', 'units') \
+                        and a0.attr in UNIT and len(node.args) > 1:
+                    # Quantity(unit, value): the value comes first — astropy raises TypeError
+                    return Unknown(f'{f.name}({ast.unparse(a0)}, ...): a unit where the value belongs')
             return self.prim(f.name, args, kwargs, fr)
         if isinstance(f, App):
             return App('apply', (f,) + tuple(args) + tuple(
